@@ -143,6 +143,18 @@ def sourceWellFormed (batches : List (List Rec)) : Bool :=
   let ps := batches.flatten.map (·.pos)
   ps.all (fun p => !posEmpty p) && (ps.map keyOf).eraseDups.length == ps.length
 
+/-- final monitor state after the whole log -/
+def runSt (tree : TaskNode) (scripts : List (Nat × List Reply)) (batches : List (List Rec)) (log : List Ev) : St :=
+  log.foldl (step tree scripts) { pending := batches.flatten }
+
+/-- C06 (arch-v2): when a graceful stop has completed without error, no record is left half-handled:
+every record that reached a destination or the DLQ has been acknowledged to the source. -/
+def halfHandled (tree : TaskNode) (scripts : List (Nat × List Reply)) (batches : List (List Rec)) (log : List Ev) : List String :=
+  if !sourceWellFormed batches then [] else
+  let s := runSt tree scripts batches log
+  (s.pending.filter fun r => (s.written.any fun w => w.2.1 == root r) || s.dlqAny.contains (root r)).map fun r =>
+    s!"C06 record {root r} reached a destination or the DLQ but was not acknowledged when the stop completed"
+
 def run (tree : TaskNode) (scripts : List (Nat × List Reply)) (batches : List (List Rec)) (log : List Ev) : List String :=
   if !sourceWellFormed batches then [] else
   (log.foldl (step tree scripts) { pending := batches.flatten }).violations
